@@ -15,7 +15,7 @@
 (* Named deviations (what the code does instead, used only to match        *)
 (* entries of known_findings) are defined at the end.                      *)
 (***************************************************************************)
-EXTENDS AddrScript, Json, IOUtils, TLC
+EXTENDS AddrScriptArgs, Json, IOUtils, TLC
 
 Recs == ndJsonDeserialize(IOEnv.IN_FILE)
 
@@ -121,6 +121,16 @@ HashPlan(facts, st, wv, h) ==
 
 Build(r) ==
     CASE r.what = "addr" -> BuildAddr(r.facts, r.x, MkDest(r.dk, r.wv, r.p))
+      [] r.what = "argspace" ->     \* (G) TLC enumerates the abstract calls of the argument space that apply to a base kind
+           LET d0 == MkDest(r.dk, r.wv, r.p)
+               S == {c \in ArgCalls : ArgApplies(c, d0)}
+               RECURSIVE ToSeq(_)
+               ToSeq(T) == IF T = {} THEN <<>> ELSE LET e == CHOOSE q \in T : TRUE IN <<e>> \o ToSeq(T \ {e})
+               \* the abstract call together with the values of the arguments that are plain strings / numbers
+               Full(c) == LET g == ArgConcrete(c, d0, d0, NoDest, <<>>) IN
+                          [c |-> c, st |-> g.st, enc |-> g.enc, wt |-> g.wt, wv |-> g.wv]
+               L == ToSeq(S)
+           IN [v |-> "ok", dev |-> "", exp |-> [need |-> <<>>, calls |-> [i \in 1..Len(L) |-> Full(L[i])], libname |-> LibName(d0)]]
       [] r.what = "cands" ->        \* checksum facts for the addresses of several candidate destinations under network r.y
            LET RECURSIVE N(_)
                N(i) == IF i > Len(r.cands) THEN <<>>
@@ -335,7 +345,58 @@ JAny(r) ==
             IF v.v = "script-type" /\ o.type = "p2wpkh" /\ D = Wit(0, D.p) /\ Len(D.p) = 32
             THEN [v EXCEPT !.dev = "payload-length-not-checked"] ELSE v
 
+\* ---- the argument space: one Output(...) / add_output(...) call with several arguments naming the destination.
+\* r.a: address string (of the string / the Address object / the key object handed over; <<>> = none), r.h public_hash,
+\* r.kh HASH160(public_key), r.st / r.enc / r.wt ("" = not given), r.wv (-1 = not given), r.lock, r.y network named
+JArgs(r) ==
+    LET o == r.obs
+        a == DecodeAddr(r.a)
+        g == [hasa |-> r.a # <<>>, da |-> IF r.a = <<>> THEN NoDest ELSE DestFor(a, r.y),
+              hasl |-> r.lock # <<>>, dl |-> IF r.lock = <<>> THEN NoDest ELSE Classify(r.lock),
+              h |-> r.h, kh |-> r.kh, st |-> r.st, enc |-> r.enc, wt |-> r.wt, wv |-> r.wv]
+        C == ArgCands(g)
+        D == Classify(o.lock)
+        \* the pair reported is ONE destination: type, hash, address (every view) and the way back all belong to the script
+        Self == IF NeedAddr(r.facts, r.y, D) # <<>> THEN Bad("missing-fact", "", <<>>)
+                ELSE IF Standard(D) /\ o.type # TypeName(D) THEN Bad("script-type", "", <<>>)
+                ELSE IF ~Standard(D) /\ o.type \in LegacyFour THEN Bad("script-type", "", <<>>)
+                ELSE IF o.hash # D.p THEN Bad("public-hash", "", D.p)
+                ELSE IF o.addr # AddrT(r.facts, r.y, D) THEN Bad("script-and-address-disagree", "", AddrT(r.facts, r.y, D))
+                ELSE ViewsAndRoundTrip(o, D)
+        \* ---- named deviations of the argument handling (what the code does instead)
+        S == ShapeOf(o.lock)
+        named == D # NoDest /\ D.p \in ArgPayloads(g)
+        \* payload-length-not-checked: a template (p2pkh / p2sh / the default p2wpkh) filled with a 32-byte payload, or a
+        \* 20-byte one called p2wsh
+        devLen == \/ D = NoDest /\ S # NoDest /\ S.p \in ArgPayloads(g)
+                  \/ named /\ D.k = "wit" /\ D.v = 0 /\ o.type \in {"p2wpkh", "p2wsh"} /\ o.type # TypeName(D)
+        \* an address STRING is not examined at all (network, witness version, payload, type) when public_hash, public_key
+        \* or lock_script are given as well: the script comes from those, .address echoes the string
+        \* (exactly when: only a public key beside it, or hash, type and encoding all known from the other arguments)
+        devNotExamined == /\ r.a # <<>> /\ o.ok /\ o.addr = r.a /\ named /\ D # g.da
+                          /\ \/ g.kh # <<>> /\ g.h = <<>> /\ ~g.hasl
+                             \/ (g.h # <<>> \/ g.hasl) /\ (g.st # "" \/ g.hasl) /\ g.enc # ""
+        \* witness_type='legacy' makes the reported address Base58 although the script carried is a witness program
+        devLegacyHint == /\ r.wt = "legacy" /\ named /\ D.k = "wit"
+                         /\ \E w \in {o.addr, o.addr2, o.addr3} : w # AddrT(r.facts, r.y, D)
+        \* contradictory arguments are not noticed: script from one argument, address / encoding from another
+        devContra == C = {} /\ named
+        Attribution == IF devLen THEN "payload-length-not-checked"
+                       ELSE IF devNotExamined THEN "address-not-examined-beside-other-arguments"
+                       ELSE IF devLegacyHint THEN "legacy-witness-type-base58-address-for-witness-script"
+                       ELSE IF devContra THEN "contradictory-arguments-not-noticed" ELSE ""
+        V == IF ArgMustRefuse(g) THEN (IF ~o.ok THEN Ok ELSE Bad("foreign-or-invalid-destination-not-refused", "", <<>>))
+             ELSE IF C # {}
+             THEN (IF ~o.ok THEN (IF ArgMustAccept(g) THEN Bad("agreeing-arguments-refused", "", <<>>) ELSE Ok)
+                   ELSE IF D \notin C THEN Bad("script-is-not-the-destination-named", "", <<>>)
+                   ELSE Self)
+             ELSE IF ~o.ok THEN Ok                          \* contradictory arguments may be refused ...
+             ELSE IF D = NoDest \/ D.p \notin ArgPayloads(g) THEN Bad("contradictory-arguments-resolved-to-unnamed-payload", "", <<>>)
+             ELSE Self                                      \* ... or resolved to one destination
+    IN IF V.v \in {"ok", "missing-fact"} THEN V ELSE [V EXCEPT !.dev = Attribution]
+
 Judge(r) == CASE r.k = "build" -> Build(r)
+              [] r.k = "args" -> JArgs(r)
               [] r.k = "any" -> JAny(r)
               [] r.k = "uniform" -> JUniform(r)
               [] r.k = "fwd" -> JFwd(r)
